@@ -19,6 +19,8 @@
 //                 bit 7 quote the executable word in the command-line form, bits 8-9 variant of form 5
 //                 (0 argc 0 / argv NULL, 1 argc 1, 2 empty List, 3 command line of one word), bit 10 the argv[0] placeholder equals the executable,
 //                 bit 11 keep the (joined) Process object and start the next child of the case with it
+//                 bit 12 do not read the redirected output at all: join() straight away while the child (which waits a moment) still
+//                 has its (small) output to write; the exit code and the child's own account must be unaffected
 //
 // Command lines are built by the rules of DESIGN 4.1: words separated by single spaces, quotes only as "..." segments with
 // \" inside, words non-empty; a backslash stays in a word only where it cannot be read as the escape of a quote (otherwise it is
@@ -211,7 +213,7 @@ void pbt_generate(Rng& r, int size, Case& c) {
     long form = r.weighted(FW, 6);
     long streams = (long)r.below(8) | (r.chance(18) ? 8 : 0);
     static const int EW[] = {55, 15, 15, 15};
-    long mode = (long)r.below(3) | ((long)r.weighted(EW, 4) << 2) | ((long)r.below(16) << 4) | ((long)r.below(4) << 8) | ((long)r.below(2) << 10) | ((long)r.below(2) << 11);
+    long mode = (long)r.below(3) | ((long)r.weighted(EW, 4) << 2) | ((long)r.below(16) << 4) | ((long)r.below(4) << 8) | ((long)r.below(2) << 10) | ((long)r.below(2) << 11) | ((long)(r.chance(12) ? 1 : 0) << 12);
     long code = r.chance(25) ? (long)(r.chance(50) ? 0 : 255) : (long)r.below(256);
     c.add("run", form, streams, code, mode);
   }
@@ -237,6 +239,7 @@ void runOne(const Op& op, Pending& pd, Ctx& ctx, Process*& kept) {
   if (useStart) streams = 0;
   if (form == 5 && endMode == 3) endMode = 0;  // a child without arguments cannot be told to pause
   bool hang = endMode == 3;
+  bool noRead = ((mode >> 12) & 1) && !useStart && !hang && form != 5 && endMode <= 1 && (streams & (Process::stdoutStream | Process::stderrStream));
 
   // ---- environment
   std::map<std::string, std::string> envModel;
@@ -251,6 +254,7 @@ void runOne(const Op& op, Pending& pd, Ctx& ctx, Process*& kept) {
   bool inR = (streams & Process::stdinStream) != 0, outR = (streams & Process::stdoutStream) != 0, errR = (streams & Process::stderrStream) != 0;
   std::string inBytes = inR && !hang && form != 5 ? pattern((size_t)SZ[nn(pd.i, 8)], 3) : std::string();
   size_t no = outR && !hang && form != 5 ? (size_t)SZ[nn(pd.o, 8)] : 0, ne = errR && !hang && form != 5 ? (size_t)SZ[nn(pd.e, 8)] : 0;
+  if (noRead) { if (no > 3000) no = 3000; if (ne > 3000) ne = 3000; if (inBytes.size() > 3000) inBytes.resize(3000); }   // everything fits into the pipes
   bool echoOut = outR && inR && !hang && form != 5 && ((pd.c >> 3) & 1), echoErr = errR && inR && !hang && form != 5 && ((pd.c >> 4) & 1);
   std::string expOut = (echoOut ? inBytes : std::string()) + pattern(no, 1);
   std::string expErr = (echoErr ? inBytes : std::string()) + pattern(ne, 2);
@@ -266,7 +270,7 @@ void runOne(const Op& op, Pending& pd, Ctx& ctx, Process*& kept) {
 
   // ---- argument vector
   char ctl[160];
-  snprintf(ctl, sizeof ctl, "x%ld,i%d,O%d,E%d,o%zu,e%zu,f%d,h%d", code, inR && !hang ? 1 : 0, (int)echoOut, (int)echoErr, no, ne, (int)errFirst, (int)hang);
+  snprintf(ctl, sizeof ctl, "x%ld,i%d,O%d,E%d,o%zu,e%zu,f%d,h%d%s", code, inR && !hang ? 1 : 0, (int)echoOut, (int)echoErr, no, ne, (int)errFirst, (int)hang, noRead ? ",w30" : "");
   std::vector<std::string> expArgv;
   bool freeBackslash = false;
   expArgv.push_back(g_child);
@@ -366,6 +370,7 @@ void runOne(const Op& op, Pending& pd, Ctx& ctx, Process*& kept) {
       P->close(Process::stdinStream);
     }
     uint open_ = streams & (Process::stdoutStream | Process::stderrStream);
+    if (noRead) { open_ = 0; ctx.label("join_without_reading"); }
     char* buf = (char*)malloc(chunk);
     if (readMode == 1) {
       ctx.label("read_sequential");
@@ -483,6 +488,7 @@ void runOne(const Op& op, Pending& pd, Ctx& ctx, Process*& kept) {
     size_t k = 0; while (k < g.size() && k < w.size() && g[k] == w[k]) ++k;
     failf(ctx, std::string("mismatch:") + nm, std::string(nm) + ": read " + std::to_string(g.size()) + " bytes until end-of-file, the child wrote " + std::to_string(w.size()) + "; first difference at offset " + std::to_string(k));
   };
+  if (noRead) return;   // the output was never asked for
   if (outR) cmp("stdout", gotOut, expOut);
   if (errR) cmp("stderr", gotErr, expErr);
 }
